@@ -96,6 +96,22 @@ def post(run, cases, impl, model):
                                                 "q r locate %s" % D.hx(S[-1]), "q r extract 1", "free d", "free r"]
         cs.append(Case("C07-corpus-" + name, cmds, {"kind": kind, "S": S, "params": params, "shape": "corpus", "phases": {"r": "reloaded"}}))
     out = vlib.run_cases(exe, cs, tag="impl-corpus", timeout_case=240)
+    # (3) growth corpus with the SHRUNK reservation: single strings many times longer than the current buffer (several doublings
+    #     needed before one append), long headers, many medium strings - for every kind that uses MEMALLOC
+    exe_small, _ = vlib.build_driver("asan", extra_defs=CFG.extra_defs)
+    gs = []
+    shapes = {"onehuge": [b"a", b"b" * 700 + b"x", b"c" * 3], "hugeheader": [b"h" * 500, b"h" * 500 + b"a", b"i"],
+              "manymedium": sorted(set((b"m%03d" % i) + b"y" * 45 for i in range(40))),
+              "ramp": sorted(set(b"r" * k for k in (1, 2, 5, 17, 40, 90, 200, 420)))}
+    for kind in D.FC_KINDS + ["HASHHF", "HASHUFFDAC"]:
+        for shape, S in shapes.items():
+            for b in ((["2"], ["16"]) if kind in D.FC_KINDS else (["10"],)):
+                cmds = D.build_cmds(S, kind, b) + ["save d i", "load r i generic 1", "q r numElements"] + \
+                    ["q r extract %d" % i for i in range(1, len(S) + 1)] + ["q r locate %s" % D.hx(S[1]), "free d", "free r"]
+                gs.append(Case("C07-growth-%s-%s-%s" % (kind, shape, b[0]), cmds,
+                               {"kind": kind, "S": S, "params": b, "shape": "growth-" + shape, "phases": {"r": "reloaded"}}))
+    out.update(vlib.run_cases(exe_small, gs, tag="impl-growth", timeout_case=120))
+    cs = cs + gs
     mo = vlib.run_cases(vlib.oracle_exe(), cs, tag="model-corpus")
     for c in cs:
         io = out.get(c.name, {"lines": [], "status": "missing", "err": []})
@@ -120,6 +136,8 @@ CFG = DC.Config("C07", D.ALL_KINDS, make_cmds, nsets=(7, 40), big=True, extra_ev
                      "reservation: the 13124-string capacity witness derived from the Coq refutation of the old growth check, its controls, "
                      "and 9000-string sets that force real reallocations. Non-trivial = a command; distinct by (kind, params, S, command).")
 CFG.extra_defs = ("-DLIBCSD_VERIF_MEMALLOC=16",)
+
+CFG.fm_text_residues = [31, 0, 1, 30, 63 % 32, 15, 31]
 
 
 def check(run, tier, seed, replay):
